@@ -146,6 +146,61 @@ func H_E3_InputText() {
 	}
 }
 
+// H_E4_CommentLayout: a multi-line comment or text literal inside an indented
+// block whose continuation / closing line is indented less, equally or more
+// than the block (symbolic number of blanks), followed by more statements.
+func H_E4_CommentLayout() {
+	open, close := "", ""
+	switch zv.Choose(5) {
+	case 0:
+		open, close = "/* 注", "*/"
+	case 1:
+		open, close = "注：「甲", "」"
+	case 2:
+		open, close = "注：“甲", "”"
+	case 3:
+		open, close = "令文 = “甲", "”"
+	default:
+		open, close = "令文 = 「甲", "」"
+	}
+	depth := 1 + zv.Choose(2)
+	blanks := zv.Int("blanks", 0, 9)
+	nb := 0
+	for k := 0; k <= 9; k++ {
+		if blanks == k {
+			nb = k
+		}
+	}
+	useTab := zv.Choose(2) == 1
+	unit := "    "
+	if useTab {
+		unit = "\t"
+	}
+	ind := ""
+	for k := 0; k < depth; k++ {
+		ind += unit
+	}
+	pad := ""
+	for k := 0; k < nb; k++ {
+		if useTab {
+			pad += "\t"
+		} else {
+			pad += " "
+		}
+	}
+	middle := zv.Choose(2) == 1 // one more continuation line in between
+	src := "如何F？\n"
+	if depth == 2 {
+		src += unit + "如果 真：\n"
+	}
+	src += ind + "令A = 1\n" + ind + open + "\n"
+	if middle {
+		src += "乙\n"
+	}
+	src += pad + close + "\n" + ind + "令B = 2\n" + unit + "输出 A\n输出（F）"
+	checkFrontEnd([]rune(src), "E4")
+}
+
 var anyRuneContexts = [][2]string{{"", ""}, {"令X = ", ""}, {"令X", " = 1"}, {"`", "`"}, {"“", "”"}, {"注：", ""}, {"（显示：", "）"}}
 
 // H_E1c_AnyRune: one character that may be ANY Unicode scalar value (and any
